@@ -2246,3 +2246,99 @@ func H_C11_resetJournal(mode int) {
 		verifAssert(!removed(name), "C11: resetting a job never removes a notification written by another fork or stage whose name starts with the same text")
 	}
 }
+
+// H_C06_restartMapped(full): a stage mapped over three elements, restarted
+// after a failure.  Each of the three forks is - arbitrarily - complete,
+// failed in its one chunk, or not yet started when mrp is restarted on the
+// directory (metadata loaded from the disk model, states computed as the run
+// loop does); at least one fork failed.  Pipestance.Reset then runs with the
+// default chunk-granular reset (full = 0) or with MRO_FULLSTAGERESET (full =
+// 1: the whole stage directory is deleted).
+//
+//	C06: after the reset the stage is no longer failed; no fork reports itself
+//	     complete unless its _complete file is (still) on disk - a fork whose
+//	     outputs the reset deleted is executed again, its consumer does not
+//	     get null for them; with the default reset the forks which completed
+//	     are kept.
+func H_C06_restartMapped(full int) {
+	disableUniquification = false
+	top := vsTop()
+	top.rt.Config.JobMode = localMode
+	top.rt.Config.FullStageReset = full != 0
+	p := vsPipelineNode(top, nil, "ID.ps.P", "P")
+	p.parent = top
+	node, f0 := vsStageNode(top, "S", true)
+	node.parent = p
+	p.subnodes["S"] = node
+	forks := []*Fork{f0}
+	for i := 1; i < 3; i++ {
+		id := "fork" + string(rune('0'+i))
+		f := &Fork{node: node, id: id, index: i, path: node.path + "/" + id}
+		f.fqname = node.call.GetFqid() + "." + id
+		f.metadata = NewMetadata(f.fqname, f.path)
+		f.split_metadata = NewMetadata(f.fqname+".split", f.path+"/split")
+		f.split_metadata.journalPath = "/ps/journal/P.S." + id
+		f.join_metadata = NewMetadata(f.fqname+".join", f.path+"/join")
+		f.join_metadata.journalPath = f.split_metadata.journalPath
+		f.stageDefs = &StageDefs{}
+		forks = append(forks, f)
+	}
+	node.forks = forks
+	vsDiskMode, vsDisk = true, map[string]map[MetadataFileName]struct{}{}
+	vsChunks = 1
+	var kind [3]int // 0 complete, 1 failed chunk, 2 not started
+	anyFailed := false
+	for i, f := range forks {
+		c := &Chunk{fork: f, index: 0, chunkDef: &ChunkDef{}}
+		c.fqname = f.fqname + ".chnk0"
+		c.metadata = newMetadataWithJournalPath(c.fqname, "P.S."+f.id+".chnk0", f.path+"/chnk0", top.journalPath)
+		f.chunks = []*Chunk{c}
+		kind[i] = verifInt("fork state")
+		verifAssume(kind[i] >= 0 && kind[i] <= 2)
+		switch kind[i] {
+		case 0:
+			for _, m := range []*Metadata{f.split_metadata, c.metadata, f.join_metadata, f.metadata} {
+				vsDiskAdd(m.path, CompleteFile)
+			}
+			vsDiskAdd(f.split_metadata.path, StageDefsFile)
+		case 1:
+			vsDiskAdd(f.split_metadata.path, CompleteFile)
+			vsDiskAdd(f.split_metadata.path, StageDefsFile)
+			vsDiskAdd(c.metadata.path, Errors)
+			vsDiskAdd(c.metadata.path, JobInfoFile)
+			anyFailed = true
+		}
+	}
+	verifAssume(anyFailed)
+	vsPidZero, vsPidDead, vsJobInfoErr = false, true, false
+	ps := &Pipestance{node: p, metadata: NewMetadata("ID.ps", "/ps")}
+	ps.metadata.contents[Lock] = struct{}{}
+	// what mrp does when it re-attaches: load the metadata and compute states
+	node.loadMetadata()
+	p.state = Running
+	if node.state != Failed {
+		// a failed fork behind an unfinished one is not noticed yet
+		verifCover("failure hidden behind an unfinished fork")
+		vsDiskMode, vsDisk = false, nil
+		return
+	}
+	for _, f := range forks {
+		f.getState()
+	}
+	err := ps.Reset()
+	verifCover("mapped stage restarted after a fault")
+	verifAssert(err == nil, "the reset succeeds when the file system does")
+	verifAssert(node.getState() != Failed, "C06: once the fault is removed a restart clears the failure of a mapped stage")
+	for i, f := range forks {
+		st := f.getState()
+		onDisk := vsDiskHas(f.path, CompleteFile)
+		verifAssert(st != Complete || onDisk, "C06: after a reset no fork reports itself complete unless its _complete file is still there (a fork whose outputs were deleted runs again)")
+		if full == 0 && kind[i] == 0 {
+			verifAssert(st == Complete, "C06: with the default reset the forks which completed are not redone")
+		}
+		if full != 0 {
+			verifAssert(st != Complete && st != Failed, "C06: after a full stage reset every fork of the stage starts over")
+		}
+	}
+	vsDiskMode, vsDisk = false, nil
+}
